@@ -114,7 +114,10 @@ def handle (op : String) (j : Json) : Option Json :=
     | _, _, _, _, _, _ => some badInput
   else if op == "c09.writex" then
     match getBool? j "rm", (getObj? j "cfg").bind cfg?, (getList? j "records").bind (·.mapM record?) with
-    | some rm, some cfg, some rs => some (ofList ofOut (writeChromX rm cfg none rs))
+    | some rm, some cfg, some rs =>
+      -- "f65": the working tree has fixes/F65.patch (keep mode: a call phased anew loses its old phase information first)
+      if !rm && (getBool? j "f65").getD false then some (ofList ofOut (writeChromXF cfg none rs))
+      else some (ofList ofOut (writeChromX rm cfg none rs))
     | _, _, _ => some badInput
   else if op == "c09.writefile" then
     match (getObj? j "cfg").bind cfg? with
